@@ -62,6 +62,7 @@ type Module struct {
 	Mocks   []MockInfo
 	Methods map[string][]string // interface -> exported method names (complete method set)
 	Class   map[string]string   // "<iface>.<method>" -> shape class of the signature
+	Disting map[string]bool     // "<iface>.<method>" -> calls are distinguishable by an int or string argument
 	GenLog  []string
 }
 
@@ -196,6 +197,7 @@ func (m *Module) loadMethods(v Variant) error {
 	}
 	m.Methods = map[string][]string{}
 	m.Class = map[string]string{}
+	m.Disting = map[string]bool{}
 	for _, c := range Corpus {
 		obj := pkgs[0].Types.Scope().Lookup(c.Name)
 		if obj == nil {
@@ -209,7 +211,13 @@ func (m *Module) loadMethods(v Variant) error {
 		for i := 0; i < it.NumMethods(); i++ {
 			if it.Method(i).Exported() {
 				ms = append(ms, it.Method(i).Name())
-				m.Class[c.Name+"."+it.Method(i).Name()] = shapeClass(it.Method(i).Type().(*types.Signature))
+				sig := it.Method(i).Type().(*types.Signature)
+				m.Class[c.Name+"."+it.Method(i).Name()] = shapeClass(sig)
+				for k := 0; k < sig.Params().Len(); k++ {
+					if b, ok := sig.Params().At(k).Type().(*types.Basic); ok && b.Info()&(types.IsInteger|types.IsString) != 0 {
+						m.Disting[c.Name+"."+it.Method(i).Name()] = true
+					}
+				}
 			}
 		}
 		sort.Strings(ms)
